@@ -307,7 +307,34 @@ def _open(file, mode="r", *a, **k):
     f = _real["open"](file, mode, *a, **k)
     if kind in ("openrw", "opena"):
         return _FileProxy(f, file, mode)
+    if kind == "openw" and "b" in mode and os.sep + "tmp" + os.sep in os.path.abspath(os.fspath(file)) and r.split(os.sep)[0] in ("objects", "metadata"):
+        return _ChunkProxy(f, file)      # a staging file written chunk by chunk without NamedTemporaryFile
     return f
+
+
+class _ChunkProxy:
+    """A binary staging file opened by name: every write is an event and reaches the disk at once, so that an observer
+    (or a concurrent writer of the same name) sees the prefix written so far."""
+
+    def __init__(self, f, path):
+        object.__setattr__(self, "_f", f)
+        object.__setattr__(self, "_path", path)
+
+    def __enter__(self):
+        return self
+
+    def __exit__(self, *a):
+        self._f.close()
+        return False
+
+    def write(self, data):
+        _emit("write", self._path, len(data))
+        r = self._f.write(data)
+        self._f.flush()
+        return r
+
+    def __getattr__(self, name):
+        return getattr(object.__getattribute__(self, "_f"), name)
 
 
 def _flock(fd, op):
